@@ -54,6 +54,10 @@ Proof. repeat split; vm_compute; reflexivity. Qed.
 Lemma at_nul : best_match bol_rules [0] = Some (A_goto_notbol, 1%nat) /\ best_match main_rules [0] = Some (A_end, 1%nat).
 Proof. split; vm_compute; reflexivity. Qed.
 
+(* utoken.scan appends at least one NUL sentinel *)
+Lemma sentinels_nonempty : exists pad, sentinels = 0 :: pad.
+Proof. eexists. vm_compute. reflexivity. Qed.
+
 (* token-type numbers used by the actions differ from t_ebad *)
 Lemma types_not_ebad :
   forallb (fun t => negb (t =? t_ebad))
@@ -542,9 +546,8 @@ Qed.
 Lemma scan_tiles : forall s : list N,
   exists l, scan s = F_done l /\ tiles 0 (spans l) (before_nul s).
 Proof.
-  intro s. unfold scan, sentinels.
-  change (repeat 0 32) with (0 :: repeat 0 31).
-  destruct (before_nul_split s (repeat 0 31)) as (v & Hv). rewrite Hv.
+  intro s. unfold scan. destruct sentinels_nonempty as (pad & ->).
+  destruct (before_nul_split s pad) as (v & Hv). rewrite Hv.
   destruct (run_spec (length s + 1) None (before_nul s) v [] init (before_nul_no_nul s) Inv_init) as (l & Hr & Ht).
   - pose proof (before_nul_length s). lia.
   - exists l. split; assumption.
